@@ -2,6 +2,7 @@ package c04
 
 import (
 	"fmt"
+	"github.com/llir/llvm/ir/value"
 	"os"
 	"reflect"
 	"strings"
@@ -435,6 +436,119 @@ func bindings(m *am.Module, pm *ir.Module) (errs []string, n int) {
 			if pi, ok := pb.Term.(*ir.TermInvoke); ok && b.Term != nil && b.Term.Callee != nil && b.Term.Callee.K == am.VConst {
 				same(fmt.Sprintf("function #%d block %d invoke callee", fi, bi), b.Term.Callee.C, pi.Invokee)
 			}
+		}
+		// local references: the parameters, blocks and instruction results that an instruction or terminator
+		// uses according to the generator must be exactly the local objects in its operand slots (as a
+		// multiset: a use bound to another existing value of the function is caught whatever the order)
+		lerrs, ln := localBindings(fi, f, pf)
+		errs = append(errs, lerrs...)
+		n += ln
+	}
+	return
+}
+
+type userWithOperands interface{ Operands() []*value.Value }
+
+func localBindings(fi int, f *am.Fun, pf *ir.Func) (errs []string, n int) {
+	if len(f.Params) != len(pf.Params) || len(f.Blocks) != len(pf.Blocks) {
+		return
+	}
+	obj := map[any]any{}
+	for i, p := range f.Params {
+		obj[p] = pf.Params[i]
+	}
+	for bi, b := range f.Blocks {
+		pb := pf.Blocks[bi]
+		if len(b.Insts) != len(pb.Insts) || (b.Term == nil) != (pb.Term == nil) {
+			return
+		}
+		obj[b] = pb
+		for ii, in := range b.Insts {
+			obj[in] = pb.Insts[ii]
+		}
+		if b.Term != nil {
+			obj[b.Term] = pb.Term
+		}
+	}
+	check := func(where string, in *am.Inst, pin any) {
+		u, ok := pin.(userWithOperands)
+		if !ok {
+			return
+		}
+		want := map[any]int{}
+		addV := func(v *am.Value) {
+			if v == nil {
+				return
+			}
+			switch v.K {
+			case am.VInst:
+				want[obj[v.I]]++
+			case am.VParam:
+				want[obj[v.P]]++
+			case am.VBlock:
+				want[obj[v.B]]++
+			}
+		}
+		for _, a := range in.Args {
+			addV(a)
+		}
+		addV(in.Callee)
+		addV(in.ParentPad)
+		for _, inc := range in.Incs {
+			addV(inc.V)
+			want[obj[inc.Pred]]++
+		}
+		for _, bd := range in.Bundles {
+			for _, a := range bd.Args {
+				addV(a)
+			}
+		}
+		for _, t := range in.Targets {
+			want[obj[t]]++
+		}
+		for _, t := range in.Handlers {
+			want[obj[t]]++
+		}
+		got := map[any]int{}
+		var ops []*value.Value
+		if p := lx.Guard(func() { ops = u.Operands() }); p != nil {
+			return
+		}
+		for _, slot := range ops {
+			v := *slot
+			if a, isArg := v.(*ir.Arg); isArg {
+				v = a.Value
+			}
+			switch v.(type) {
+			case *ir.Param, *ir.Block, ir.Instruction, ir.Terminator:
+				got[v]++
+			}
+		}
+		n++
+		delete(want, nil)
+		for k, c := range want {
+			if got[k] != c {
+				errs = append(errs, fmt.Sprintf("%s: the text uses the local value %s %d time(s), the operand slots of the parsed instruction hold it %d time(s) (a use is bound to another value of the function)", where, identOf(k), c, got[k]))
+				return
+			}
+		}
+		for k, c := range got {
+			if want[k] != c {
+				errs = append(errs, fmt.Sprintf("%s: the operand slots of the parsed instruction hold the local value %s %d time(s), the text uses it %d time(s)", where, identOf(k), c, want[k]))
+				return
+			}
+		}
+	}
+	for bi, b := range f.Blocks {
+		pb := pf.Blocks[bi]
+		for ii, in := range b.Insts {
+			check(fmt.Sprintf("function #%d block %d inst %d (%s)", fi, bi, ii, in.Op), in, pb.Insts[ii])
+		}
+		if b.Term != nil {
+			check(fmt.Sprintf("function #%d block %d terminator (%s)", fi, bi, b.Term.Op), b.Term, pb.Term)
+		}
+		if len(errs) > 3 {
+			break
 		}
 	}
 	return
